@@ -178,6 +178,13 @@ func checkC05(w *World, r *Report) {
 	checkNoRequestWhileIterating(w, r, "C05")
 	checkEndOnExit(w, r, "C05")
 	ruleAddPushesOrParks(w, r, "C05")
+	ruleFlushDrainsPending(w, r, "C05", fi)
+	ruleStateAgrees(w, r, "C05")
+	if trig, pred := w.triggerFn(), w.completionPredicate(); trig != nil && pred != nil {
+		ruleAbort(w, r, "C05", trig, pred, pathOpts{InlineDepth: 3, Inline: noInline(trig, pred)})
+	}
+	ruleRenderTerminal(w, r, "C05")
+	ruleOptionTable(w, r, "C05", map[string][3]string{"BarRemoveOnComplete": {tBState, "rmOnComplete", "true"}})
 }
 
 // ruleAddPushesOrParks (C17.R1, C01.R10, C05): in the Add closure every created bar is pushed
@@ -309,6 +316,10 @@ func checkC17(w *World, r *Report) {
 	ruleFlushOutcome(w, r, "C17", fi)
 	ruleTerminalCancel(w, r, "C17", fi)
 	ruleParkingSound(w, r, "C17")
+	rulePopMode(w, r, "C17", fi)
+	ruleStateAgrees(w, r, "C17")
+	ruleFinalRender(w, r, "C17")
+	ruleOptionTable(w, r, "C17", map[string][3]string{"BarQueueAfter": {tBState, "waitBar", "param"}})
 }
 
 // ruleParkingSound: R2 (no overwrite) and R3 (predecessor liveness) in the Add closure.
@@ -392,6 +403,10 @@ func checkC18(w *World, r *Report) {
 	ruleFlushOutcome(w, r, "C18", fi)
 	ruleFlushCount(w, r, "C18", fi)
 	rulePopPriorityInit(w, r, "C18")
+	ruleHeapOrder(w, r, "C18")
+	ruleFinalRender(w, r, "C18")
+	ruleStateAgrees(w, r, "C18")
+	ruleOptionTable(w, r, "C18", map[string][3]string{"BarNoPop": {tBState, "noPop", "true"}, "PopCompletedMode": {tPState, "popCompleted", "true"}})
 }
 
 // ruleFlushCount (C04.R5, C18): the argument of the writer's Flush is len(rows written) - popCount,
